@@ -777,4 +777,281 @@ theorem removeBlock_sinv {ir ir' : IR} {b : Nat} {px r : Bool} {pend : List Nat}
           intro he; subst he
           exact hss ((hm0 _ hx).unique hbsec)
 
+/-! ### edit_byte_interval, _connect_empty_tail -/
+
+theorem sect_setInterval (ir : IR) (iv nv : Interval) (h : ir.interval? nv.id = some iv) (hs : nv.sect = iv.sect) (j : Nat) :
+    ((ir.setInterval nv).interval? j).map (·.sect) = (ir.interval? j).map (·.sect) := by
+  by_cases hj : j = nv.id
+  · subst hj; rw [interval?_setInterval_same ir nv.id iv nv h rfl, h]; simp [hs]
+  · rw [interval?_setInterval_other ir nv.id j nv rfl hj]
+
+theorem sectionOf_of_sects {a b : IR} (h : ∀ j, (b.interval? j).map (·.sect) = (a.interval? j).map (·.sect)) (blk : Block) :
+    b.sectionOf blk = a.sectionOf blk := by
+  unfold IR.sectionOf
+  split
+  · rfl
+  · exact h _
+
+/-- mapping the block table with a function that keeps ids and intervals, with the sections of the
+intervals unchanged, keeps every block where it is -/
+theorem secLe_of_map {a b : IR} (f : Block → Block) (hid : ∀ x, (f x).id = x.id) (hbi : ∀ x, (f x).bi = x.bi)
+    (hb : b.blocks = a.blocks.map f) (hi : ∀ j, (b.interval? j).map (·.sect) = (a.interval? j).map (·.sect)) :
+    SecLe a b := by
+  intro c s ⟨x, hx, hsx⟩
+  refine ⟨f x, ?_, ?_⟩
+  · unfold IR.block? at hx ⊢
+    rw [hb, find_map_id f hid, hx]; rfl
+  · rw [sectionOf_of_sects hi, sectionOf_bi (hbi x)]; exact hsx
+
+theorem editInterval_syms (ir : IR) (i off len : Nat) (c st : List Nat) : (ir.editInterval i off len c st).syms = ir.syms := by
+  unfold IR.editInterval; split <;> rfl
+
+theorem editInterval_order (ir : IR) (i off len : Nat) (c st : List Nat) : (ir.editInterval i off len c st).order = ir.order := by
+  unfold IR.editInterval; split <;> rfl
+
+theorem editInterval_secLe (ir : IR) (i off len : Nat) (c st : List Nat) : SecLe ir (ir.editInterval i off len c st) := by
+  unfold IR.editInterval
+  split
+  · exact SecLe.refl _
+  · rename_i bi hbi
+    let f : Block → Block := fun b =>
+      if b.bi == some i && decide (b.off ≥ off) && !st.contains b.id
+      then { b with off := b.off + c.length - len } else b
+    have hid : ∀ x, (f x).id = x.id := by intro x; simp only [f]; split <;> rfl
+    have hbi' : ∀ x, (f x).bi = x.bi := by intro x; simp only [f]; split <;> rfl
+    have hbid : bi.id = i := by
+      unfold IR.interval? at hbi
+      have := List.find?_some hbi
+      simpa using this
+    apply secLe_of_map f hid hbi' rfl
+    intro j
+    let nv : Interval :=
+      { id := bi.id, sect := bi.sect, addr := bi.addr, size := bi.size + c.length - len,
+        bytes := spliceBytes bi.bytes off len c, symExprs := shiftKeys off len c.length bi.symExprs }
+    show ((ir.setInterval nv).interval? j).map (·.sect) = _
+    exact sect_setInterval ir bi nv (by show ir.interval? bi.id = some bi; rw [hbid]; exact hbi) rfl j
+
+theorem editInterval_sinv {ir : IR} {pend : List Nat} (i off len : Nat) (c st : List Nat) (hs : SymsOk ir pend) (ho : OrdOk ir) :
+    SymsOk (ir.editInterval i off len c st) pend ∧ OrdOk (ir.editInterval i off len c st) :=
+  ⟨hs.mono (editInterval_syms _ _ _ _ _ _) (editInterval_secLe _ _ _ _ _ _),
+   ho.mono (editInterval_order _ _ _ _ _ _) (editInterval_secLe _ _ _ _ _ _)⟩
+
+theorem connectEmptyTail_secLe (ir : IR) (t : Nat) : SecLe ir (ir.connectEmptyTail t) :=
+  SecLe.of_same (core_blocks (connectEmptyTail_core _ _)) (core_intervals (connectEmptyTail_core _ _))
+
+theorem connectEmptyTail_sinv {ir : IR} {pend : List Nat} (t : Nat) (hs : SymsOk ir pend) (ho : OrdOk ir) :
+    SymsOk (ir.connectEmptyTail t) pend ∧ OrdOk (ir.connectEmptyTail t) :=
+  ⟨hs.mono (core_syms (connectEmptyTail_core _ _)) (connectEmptyTail_secLe _ _),
+   ho.mono (connectEmptyTail_order _ _) (connectEmptyTail_secLe _ _)⟩
+
+/-! ### _cleanup_modified_blocks -/
+
+theorem cleanupPass_sinv {pend : List Nat} : ∀ (rest : List Nat) (ir ir' : IR) (pred : Nat) (done : List Nat) (r : Option (List Nat)),
+    ir.cleanupPass pred rest done = .ok (ir', r) → (done ++ pred :: rest).Nodup → SymsOk ir pend → OrdOk ir →
+    SymsOk ir' pend ∧ OrdOk ir' ∧ ∀ bl', r = some bl' → bl'.Nodup := by
+  intro rest
+  induction rest with
+  | nil =>
+    intro ir ir' pred done r h _ hs ho
+    unfold IR.cleanupPass at h
+    injection h with h; injection h with h1 h2; subst h1; subst h2
+    exact ⟨hs, ho, fun _ hh => by cases hh⟩
+  | cons b rest ih =>
+    intro ir ir' pred done r h hnd hs ho
+    have hsub : (done ++ [pred] ++ rest).Nodup := by
+      refine List.Nodup.sublist ?_ hnd
+      simp only [List.append_assoc, List.singleton_append]
+      exact List.Sublist.append_left (List.Sublist.cons_cons _ (List.sublist_cons_self _ _)) _
+    have hpb : pred ≠ b := by
+      have := (List.nodup_append.mp hnd).2.1
+      exact (List.nodup_cons.mp this).1 ∘ (fun he => he ▸ List.mem_cons_self)
+    unfold IR.cleanupPass at h
+    split at h
+    · rename_i i2 hj
+      injection h with h; injection h with h1 h2; subst h1; subst h2
+      obtain ⟨a, b', _⟩ := joinBlocks_sinv hj hpb hs ho
+      exact ⟨a, b', fun _ hh => by injection hh with hh; subst hh; exact hsub⟩
+    · split at h
+      · split at h
+        · cases h
+        · rename_i i2 hr
+          injection h with h; injection h with h1 h2; subst h1; subst h2
+          obtain ⟨a, b', _, _⟩ := removeBlock_sinv hr hs ho
+          exact ⟨a, b', fun _ hh => by injection hh with hh; subst hh; exact hsub⟩
+        · rename_i i2 hr
+          obtain ⟨a, b', _, _⟩ := removeBlock_sinv hr hs ho
+          exact ih _ _ _ _ _ h (by simpa [List.append_assoc] using hnd) a b'
+      · exact ih _ _ _ _ _ h (by simpa [List.append_assoc] using hnd) hs ho
+    · cases h
+
+theorem cleanupLoop_sinv {pend : List Nat} : ∀ (fuel : Nat) (ir ir' : IR) (bl bl' : List Nat),
+    ir.cleanupLoop fuel bl = .ok (ir', bl') → bl.Nodup → SymsOk ir pend → OrdOk ir → SymsOk ir' pend ∧ OrdOk ir' := by
+  intro fuel
+  induction fuel with
+  | zero =>
+    intro ir ir' bl bl' h _ hs ho
+    unfold IR.cleanupLoop at h
+    injection h with h; injection h with h1 h2; subst h1; exact ⟨hs, ho⟩
+  | succ n ih =>
+    intro ir ir' bl bl' h hnd hs ho
+    unfold IR.cleanupLoop at h
+    split at h
+    · injection h with h; injection h with h1 h2; subst h1; exact ⟨hs, ho⟩
+    · split at h
+      · cases h
+      · rename_i i2 hp
+        injection h with h; injection h with h1 h2; subst h1
+        obtain ⟨a, b, _⟩ := cleanupPass_sinv _ _ _ _ _ _ hp (by simpa using hnd) hs ho
+        exact ⟨a, b⟩
+      · rename_i i2 bl2 hp
+        obtain ⟨a, b, c⟩ := cleanupPass_sinv _ _ _ _ _ _ hp (by simpa using hnd) hs ho
+        exact ih _ _ _ _ h (c bl2 rfl) a b
+
+theorem cleanupFirst_sinv {ir ir' : IR} {bl bl' : List Nat} {pend : List Nat}
+    (h : ir.cleanupFirst bl = .ok (ir', bl')) (hs : SymsOk ir pend) (ho : OrdOk ir) : SymsOk ir' pend ∧ OrdOk ir' := by
+  unfold IR.cleanupFirst at h
+  split at h
+  · injection h with h; injection h with h1 h2; subst h1; exact ⟨hs, ho⟩
+  · split at h
+    · split at h
+      · cases h
+      · rename_i hr
+        injection h with h; injection h with h1 h2; subst h1
+        obtain ⟨a, b, _, _⟩ := removeBlock_sinv hr hs ho
+        exact ⟨a, b⟩
+      · rename_i hr
+        injection h with h; injection h with h1 h2; subst h1
+        obtain ⟨a, b, _, _⟩ := removeBlock_sinv hr hs ho
+        exact ⟨a, b⟩
+    · injection h with h; injection h with h1 h2; subst h1; exact ⟨hs, ho⟩
+
+theorem cleanup_sinv {ir ir' : IR} {bl : List Nat} {last : Nat} {pend : List Nat}
+    (h : ir.cleanup bl = .ok (ir', last)) (hnd : bl.Nodup) (hs : SymsOk ir pend) (ho : OrdOk ir) :
+    SymsOk ir' pend ∧ OrdOk ir' := by
+  unfold IR.cleanup at h
+  split at h
+  · cases h
+  · split at h
+    · cases h
+    · rename_i ir1 bl1 hl
+      split at h
+      · cases h
+      · rename_i ir2 bl2 hf
+        split at h
+        · split at h
+          · injection h with h; injection h with h1 h2; subst h1
+            obtain ⟨a, b⟩ := cleanupLoop_sinv _ _ _ _ _ hl hnd hs ho
+            exact cleanupFirst_sinv hf a b
+          · cases h
+        · cases h
+
+/-! ### delete -/
+
+/-- the block a split creates is none of the blocks there were -/
+theorem splitBlock_new_ne {ir ir' : IR} {b off nb : Nat} {added : Bool}
+    (h : ir.splitBlock b off = .ok (ir', nb, added)) (hI : IdsBelow ir) (c : Nat) (hc : ir.block? c ≠ none) : c ≠ nb := by
+  cases hb : ir.block? b with
+  | none => unfold IR.splitBlock at h; rw [hb] at h; cases h
+  | some blk =>
+    obtain ⟨hnb, _⟩ := splitBlock_core h hb
+    intro he
+    apply hc
+    rw [he, hnb]
+    exact hI.fresh (Nat.le_refl _)
+
+theorem Keeps.block {a b : IR} (hk : Keeps a b) {c : Nat} (hc : a.block? c ≠ none) : b.block? c ≠ none := by
+  cases ha : a.block? c with
+  | none => exact absurd ha hc
+  | some blk =>
+    obtain ⟨blk', hb', _⟩ := hk c blk ha
+    rw [hb']; simp
+
+theorem delete_sinv {ir ir' : IR} {b off len : Nat} {px : Bool} {r : Option Nat} {pend : List Nat}
+    (h : ir.delete b off len px = .ok (ir', r)) (hs : SymsOk ir pend) (ho : OrdOk ir) (hI : IdsBelow ir) :
+    SymsOk ir' pend ∧ OrdOk ir' := by
+  unfold IR.delete at h
+  split at h
+  · cases h
+  · rename_i blk hb
+    split at h
+    · cases h
+    · split at h
+      · cases h
+      · rename_i biId hbi
+        split at h
+        · injection h with h; injection h with h1 h2; subst h1; exact ⟨hs, ho⟩
+        · split at h
+          · split at h
+            · cases h
+            · rename_i ir1 e1 a1 hs1
+              split at h
+              · cases h
+              · rename_i ir2 e2 a2 hs2
+                simp only [] at h
+                split at h
+                · cases h
+                · rename_i ir3 d3 hr3
+                  split at h
+                  · cases h
+                  · rename_i ir5 last hc
+                    injection h with h; injection h with h1 h2; subst h1
+                    obtain ⟨s1, o1, _, _⟩ := splitBlock_sinv hs1 hs ho hI
+                    have hI1 := splitBlock_idsBelow hs1 hI
+                    obtain ⟨s2, o2, _, _⟩ := splitBlock_sinv hs2 s1 o1 hI1
+                    obtain ⟨s2', o2'⟩ := connectEmptyTail_sinv e2 s2 o2
+                    obtain ⟨s3, o3, _, _⟩ := removeBlock_sinv hr3 s2' o2'
+                    obtain ⟨s4, o4⟩ := editInterval_sinv biId (blk.off + off) len [] [b] s3 o3
+                    have hb1 : ir1.block? b ≠ none := (splitBlock_keeps hs1).block (by rw [hb]; simp)
+                    have hne : b ≠ e2 := splitBlock_new_ne hs2 hI1 b hb1
+                    exact cleanup_sinv hc (by simp [hne]) s4 o4
+          · split at h
+            · cases h
+            · rename_i ir1 deleted hr1
+              obtain ⟨s1, o1, _, _⟩ := removeBlock_sinv hr1 hs ho
+              obtain ⟨s2, o2⟩ := editInterval_sinv biId (blk.off + off) len [] [b] s1 o1
+              simp only [] at h
+              split at h
+              · split at h
+                · cases h
+                · rename_i ir3 d3 hr3
+                  injection h with h; injection h with h1 h2; subst h1
+                  obtain ⟨s3, o3, _, _⟩ := removeBlock_sinv hr3 s2 o2
+                  exact ⟨s3, o3⟩
+              · injection h with h; injection h with h1 h2; subst h1
+                exact ⟨s2, o2⟩
+
+/-! ### insert -/
+
+theorem insertSplit_sinv {ir ir' : IR} {b off repl endB : Nat} {added : Bool} {pend : List Nat}
+    (h : ir.insertSplit b off repl = .ok (ir', endB, added)) (hs : SymsOk ir pend) (ho : OrdOk ir) (hI : IdsBelow ir) :
+    SymsOk ir' pend ∧ OrdOk ir' ∧ (∀ s, Sec ir b s → Sec ir' b s ∧ Sec ir' endB s) := by
+  unfold IR.insertSplit at h
+  split at h
+  · cases h
+  · rename_i ir1 e0 a0 hs1
+    obtain ⟨s1, o1, le1, new1⟩ := splitBlock_sinv hs1 hs ho hI
+    have hI1 := splitBlock_idsBelow hs1 hI
+    split at h
+    · split at h
+      · cases h
+      · rename_i i2 e2 a2 hs2
+        split at h
+        · cases h
+        · rename_i i3 d3 hr
+          injection h with h; injection h with h1 h2; injection h2 with h2 h3; subst h1; subst h2
+          obtain ⟨s2, o2, le2, new2⟩ := splitBlock_sinv hs2 s1 o1 hI1
+          obtain ⟨s2', o2'⟩ := connectEmptyTail_sinv e2 s2 o2
+          obtain ⟨s3, o3, lex, _⟩ := removeBlock_sinv hr s2' o2'
+          refine ⟨s3, o3, ?_⟩
+          intro s hsec
+          have hb0 : ir.block? b ≠ none := hsec.block
+          have hbe0 : b ≠ e0 := splitBlock_new_ne hs1 hI b hb0
+          have he0 : ir1.block? e0 ≠ none := (new1 s hsec).block
+          have hee : e0 ≠ e2 := splitBlock_new_ne hs2 hI1 e0 he0
+          exact ⟨lex b s hbe0 (connectEmptyTail_secLe _ _ b s (le2 b s (le1 b s hsec))),
+            lex e2 s (Ne.symm hee) (connectEmptyTail_secLe _ _ e2 s (new2 s (new1 s hsec)))⟩
+    · injection h with h; injection h with h1 h2; injection h2 with h2 h3; subst h1; subst h2
+      obtain ⟨s2, o2⟩ := connectEmptyTail_sinv e0 s1 o1
+      exact ⟨s2, o2, fun s hsec => ⟨connectEmptyTail_secLe _ _ b s (le1 b s hsec), connectEmptyTail_secLe _ _ _ s (new1 s hsec)⟩⟩
+
 end GtirbVerif.IR
